@@ -195,6 +195,8 @@ func runC09(c *Ctx) {
 		}
 	}
 
+	runC09ListPreserved(c)
+
 	// siblings
 	f1 := p.Fn("isIPAllowed")
 	f2 := p.Fn("(*Server).isIPAllowed")
